@@ -74,6 +74,18 @@ class SKwargs(object):
         self.d = d
 
 
+class SDict(object):
+    """dict with a shape fixed by the contract (string keys)"""
+    def __init__(self, d):
+        self.d = d
+
+
+class SObject(object):
+    """`self` with the attributes the contract declares"""
+    def __init__(self, attrs):
+        self.attrs = attrs
+
+
 _fresh = itertools.count()
 
 
@@ -326,6 +338,8 @@ class Gen(object):
             return z3.If(ev(n.test), a, b)
         if isinstance(n, ast.Subscript):
             l = ev(n.value)
+            if isinstance(l, SDict):
+                return l.d[n.slice.value]
             if isinstance(l, STuple):
                 return l.items[n.slice.value]
             i = ev(n.slice)
@@ -515,6 +529,10 @@ class Gen(object):
             return z3.If(c, a, b)
         if isinstance(n, ast.Subscript):
             l = ev(n.value)
+            if isinstance(l, SDict):
+                if isinstance(n.slice, ast.Constant) and n.slice.value in l.d:
+                    return l.d[n.slice.value]
+                raise Unsupported('dict key')
             if isinstance(l, STuple):
                 if isinstance(n.slice, ast.Constant):
                     return l.items[n.slice.value]
@@ -530,6 +548,8 @@ class Gen(object):
         if isinstance(n, ast.ListComp):
             return self.listcomp(n, path)
         if isinstance(n, ast.Attribute):
+            if isinstance(n.value, ast.Name) and isinstance(env.get(n.value.id), SObject) and n.attr in env[n.value.id].attrs:
+                return env[n.value.id].attrs[n.attr]
             raise Unsupported('attribute %s' % ast.dump(n)[:60])
         raise Unsupported('expression %s' % type(n).__name__)
 
@@ -755,6 +775,11 @@ class Gen(object):
                 if qual in self.registry:
                     return self.call_contract(qual, n, path)
                 raise Unsupported('call of %s without contract' % qual)
+            if isinstance(obj, ast.Name) and isinstance(path.env.get(obj.id), SObject):
+                tgt = path.env[obj.id].attrs.get(meth)
+                if isinstance(tgt, SFunc):
+                    return self.call_contract(tgt.name, n, path)
+                raise Unsupported('method %s of self' % meth)
             if isinstance(obj, ast.Name) and obj.id == 'math' and meth == 'sqrt':
                 a = to_real(ev(n.args[0]))
                 self.oblige('sqrt-domain@%d' % n.lineno, path, atom(a >= 0), 'safety', n.lineno)
@@ -784,6 +809,16 @@ class Gen(object):
         actual = {}
         for nm, a in zip(names, n.args):
             actual[nm] = self.expr(a, path)
+        # a function-valued argument selects the contract variant verified for that function
+        for nm, v in list(actual.items()):
+            t = c['args'].get(nm)
+            if isinstance(v, SFunc) and isinstance(t, tuple) and t[0] == 'func' and t[1] != v.name:
+                alt = [k for k, cc in self.registry.items() if cc.get('target', k) == c.get('target', qual)
+                       and cc['args'].get(nm) == ('func', v.name)]
+                if not alt:
+                    raise Unsupported('no contract of %s for %s=%s' % (qual, nm, v.name))
+                qual = alt[0]
+                c = self.registry[qual]
         for kw in n.keywords:
             if kw.arg is None:
                 raise Unsupported('**kwargs at a call')
@@ -831,6 +866,20 @@ class Gen(object):
         if t == 'none':
             return NONE
         raise Unsupported('type %r' % (t,))
+
+    def declare(self, name, t, hyps):
+        """symbolic input of a declared type"""
+        if isinstance(t, tuple) and t[0] == 'list':
+            l = SList(z3.Const(name, z3.ArraySort(I, sort_of(t[1]))), z3.Int('len_' + name), t[1])
+            if l.nested():
+                l.ilen = z3.Const('ilen_' + name, z3.ArraySort(I, I))
+                q = z3.Int('k?')
+                hyps.append(('forall', [q], atom(z3.Select(l.ilen, q) >= 0)))
+            hyps.append(atom(l.ln >= 0))
+            return l
+        if isinstance(t, tuple) and t[0] == 'tuple':
+            return STuple([self.declare('%s_%d' % (name, k), x, hyps) for k, x in enumerate(t[1:])])
+        return z3.Const(name, {'int': I, 'real': R, 'bool': B}[t])
 
     def spec_value(self, d):
         if isinstance(d, bool):
@@ -1158,23 +1207,24 @@ class Gen(object):
         env = {}
         hyps = []
         c = self.c
+        for a, t in c.get('ghost_args', {}).items():
+            env[a] = self.declare(a, t, hyps)
         for a, t in c['args'].items():
             if t == 'kwargs':
-                env[a] = SKwargs({k: self.spec_value(v) for k, v in c.get('kwargs', {}).items()})
+                env[a] = SKwargs({k: (env[v[1:]] if isinstance(v, str) and v.startswith('$') else self.spec_value(v))
+                                  for k, v in c.get('kwargs', {}).items()})
+                continue
+            if t == 'self':
+                env[a] = SObject({k: (SFunc(v[1]) if isinstance(v, tuple) and v[0] == 'func' else self.declare('self_' + k, v, hyps))
+                                  for k, v in c.get('self', {}).items()})
+                continue
+            if isinstance(t, tuple) and t[0] == 'dict':
+                env[a] = SDict({k: self.declare('%s_%s' % (a, k), v, hyps) for k, v in t[1].items()})
                 continue
             if isinstance(t, tuple) and t[0] == 'func':
                 env[a] = SFunc(t[1])
                 continue
-            if isinstance(t, tuple) and t[0] == 'list':
-                l = SList(z3.Const(a, z3.ArraySort(I, sort_of(t[1]))), z3.Int('len_' + a), t[1])
-                if l.nested():
-                    l.ilen = z3.Const('ilen_' + a, z3.ArraySort(I, I))
-                    q = z3.Int('k?')
-                    hyps.append(('forall', [q], atom(z3.Select(l.ilen, q) >= 0)))
-                env[a] = l
-                hyps.append(atom(l.ln >= 0))
-            else:
-                env[a] = z3.Const(a, {'int': I, 'real': R, 'bool': B}[t])
+            env[a] = self.declare(a, t, hyps)
         self.entry_env = dict(env)
         for name, (argsorts, ret) in c.get('funcs', {}).items():
             self.specfuncs[name] = SpecFunc(name + '@spec', [sort_of(s) for s in argsorts], sort_of(ret))
